@@ -27,6 +27,10 @@ def DATA_ERROR : Ret := 9
 def PROG_ERROR : Ret := 11
 def TIMED_OUT : Ret := 101
 
+/-- `chunk_size` of worker_decoder and the factor of GET_BUFS_LIMIT (outqueue.c); tied to the source by Gen/C07.lean. -/
+def chunkSize : Nat := 16384
+def bufsLimitFactor : Nat := 2
+
 inductive Kind | thr | direct | badHeader | sync
   deriving DecidableEq, Repr, Inhabited
 
@@ -258,7 +262,7 @@ def stalled (s : State) : Bool :=
 def canStartNow (s : State) : Bool :=
   let b := blk s s.cur
   decide (s.cfg.memLimit - s.memInUse - outqMem s ≥ b.memThr + b.memOut)
-    && decide (s.queue.length < 2 * s.cfg.threadsMax)
+    && decide (s.queue.length < bufsLimitFactor * s.cfg.threadsMax)
     && (decide (s.workers.length < s.cfg.threadsMax) || !s.threadsFree.isEmpty)
 
 def askCanStart : RowK → Bool
@@ -299,7 +303,7 @@ def workerDecide (w : Worker) : Worker :=
   | .exit => { w with pc := .cleanup }
   | .run =>
     if w.inFilled = w.inPos && w.pu != .start then { w with pc := .wait, woken := false }
-    else { w with pc := .decode (min w.inFilled (w.inPos + 16384)) w.pu }
+    else { w with pc := .decode (min w.inFilled (w.inPos + chunkSize)) w.pu }
 
 def popFree (s : State) : Option (Nat × List Nat) :=
   match s.threadsFree with
